@@ -59,6 +59,41 @@ fn main() {
                     continue;
                 }
                 sink.hist_index = hi;
+                if let Some(fe) = h.get("fault_enum") {
+                    // C11: the history is run once fault-free to count its device calls, then once per
+                    // chosen call index with exactly that call failing
+                    let devnull = std::fs::OpenOptions::new().write(true).open("/dev/null").unwrap();
+                    let mut null_sink = fs::Sink { out: std::io::BufWriter::new(devnull), progress_path: format!("{}.progress0", &args[3]), hist_index: hi, op_started: sink.op_started.clone() };
+                    let mut ev0 = Vec::new();
+                    let st0 = fs::run_history(h, &mut ev0, &opts, &mut null_sink);
+                    let n = st0.dev_reads + st0.dev_writes;
+                    let cap = fe.get("cap").and_then(|x| x.as_u64()).unwrap_or(u64::MAX);
+                    let mut idx: Vec<u64> = (1..=n).collect();
+                    if n > cap {
+                        let mut rng = vals::Rng(opts.seed ^ (hi as u64) << 8);
+                        let mut pick: Vec<u64> = (0..cap).map(|k| 1 + k * n / cap).collect();
+                        for _ in 0..cap / 4 {
+                            pick.push(1 + rng.below(n));
+                        }
+                        pick.sort();
+                        pick.dedup();
+                        idx = pick;
+                    }
+                    for i in idx {
+                        let mut hh = h.clone();
+                        hh["fail_at"] = serde_json::json!(i);
+                        hh["id"] = serde_json::json!(format!("{}#{}", h["id"].as_str().unwrap_or("?"), i));
+                        let mut events = Vec::new();
+                        let st = fs::run_history(&hh, &mut events, &opts, &mut sink);
+                        sink.flush_events(&mut events);
+                        tot.0 += 1;
+                        tot.1 += st.api_calls;
+                        tot.2 += st.dev_writes;
+                        tot.3 += st.dev_reads;
+                        tot.5 += st.panics;
+                    }
+                    continue;
+                }
                 let mut events = Vec::new();
                 let st = fs::run_history(h, &mut events, &opts, &mut sink);
                 sink.flush_events(&mut events);
